@@ -162,6 +162,7 @@ func init() {
 		{name: "SetTitle", kind: "title"},
 		{name: "work on another document (build, save, reopen, render as template)", kind: "other"},
 		{name: "AddParagraph({{#image pic}})", kind: "placeholder"},
+		{name: "move the paragraph that holds the last body picture to the end (RemoveParagraph(handle), then Body.AddElement(handle))", kind: "movepic"},
 		{name: "render-template(pic=png)", kind: "render"},
 		{name: "render-template(no placeholder data: the render adds no relationship of its own)", kind: "render0"},
 		{name: "reopen", kind: "reopen"},
@@ -199,6 +200,7 @@ type c02Inst struct {
 	lastNT bool
 	reop   int
 	rend   int
+	moved  int
 	nph    int
 	nfn    int
 	nen    int
@@ -241,6 +243,8 @@ func (i *c02Inst) Enabled(op int) bool {
 		return i.rend < 1 && i.nph > 0
 	case "render0":
 		return i.rend < 1
+	case "movepic":
+		return i.moved < 1 && c02LastPicturePara(i.doc) != nil
 	case "placeholder":
 		return i.nph < 1
 	}
@@ -248,6 +252,21 @@ func (i *c02Inst) Enabled(op int) bool {
 }
 
 func (i *c02Inst) Nontrivial() bool { return i.lastNT }
+
+// c02LastPicturePara is the last top-level paragraph of the body that holds a drawing (nil if none).
+func c02LastPicturePara(d *document.Document) *document.Paragraph {
+	var last *document.Paragraph
+	for _, e := range d.Body.Elements {
+		if p, ok := e.(*document.Paragraph); ok {
+			for k := range p.Runs {
+				if p.Runs[k].Drawing != nil {
+					last = p
+				}
+			}
+		}
+	}
+	return last
+}
 
 func (i *c02Inst) Apply(op int) (string, []rep.Violation) {
 	o := c02Ops[op]
@@ -334,6 +353,14 @@ func (i *c02Inst) Apply(op int) (string, []rep.Violation) {
 			}
 			i.doc = d
 			i.rend++
+		case "movepic":
+			p := c02LastPicturePara(i.doc)
+			if !i.doc.RemoveParagraph(p) {
+				err = fmt.Errorf("RemoveParagraph(handle of a paragraph of the body) reports failure")
+				return
+			}
+			i.doc.Body.AddElement(p)
+			i.moved++
 		case "render0":
 			eng := document.NewTemplateEngine()
 			if _, e := eng.LoadTemplateFromDocument("t", i.doc); e != nil {
